@@ -185,10 +185,19 @@ def main():
         # jpg is lossy: only the persistence rules (when a file exists, what a missing tile reads as) are checked for it
         for fmt, modes in list(CAPABLE.items()) + [("jpg", ["RGB", "RGBA"])]:
             for mode in modes:
-                for trial in range(3 if h.deep else 1):
+                ntr = 3 if h.deep else 1
+                for trial in range(ntr + 1):
                     k += 1
-                    pio = PyramidIO(os.path.join(root, f"p{k}"), default_format=fmt)
+                    # the last trial addresses the tiles with an explicit `format=` that is not the pyramid's default (as the
+                    # samplers and `transform` do); a tile of the default format sits at the same position and must survive
+                    explicit = trial == ntr
+                    dflt = fmt if not explicit else ("npy" if fmt != "npy" else "fits")
+                    kw = {"format": fmt} if explicit else {}
+                    pio = PyramidIO(os.path.join(root, f"p{k}"), default_format=dflt)
                     pos = Pos(2, rng.randint(0, 3), rng.randint(0, 3))
+                    if explicit:
+                        keep = np.full((256, 256), 7.0, dtype=np.float32)
+                        pio.write_image(pos, Image.from_array(keep.copy()))
                     bmode = "RGBA" if mode == "RGB" else mode
                     im_mode = getattr(ImageMode, mode)
                     hist = [rng.choice(["full", "partial", "masked"]) for _ in range(rng.randint(1, 4))]
@@ -200,27 +209,34 @@ def main():
                         arr = rand_img(rng, bmode, 256, 256, dens).astype(MODES[mode][3])
                         with warnings.catch_warnings():
                             warnings.simplefilter("ignore")
-                            pio.write_image(pos, Image.from_array(arr.copy()))
+                            pio.write_image(pos, Image.from_array(arr.copy()), **kw)
                         last = arr
-                    h.case(("persist", fmt, mode, tuple(hist)))
-                    h.count("persist", f"{fmt}/{mode}")
-                    path = pio.tile_path(pos, makedirs=False)
+                    h.case(("persist", fmt, mode, tuple(hist), explicit))
+                    h.count("persist", f"{fmt}/{mode}" + ("/explicit-format" if explicit else ""))
+                    path = pio.tile_path(pos, makedirs=False, **kw)
+                    if explicit:
+                        with warnings.catch_warnings():
+                            warnings.simplefilter("ignore")
+                            other = pio.read_image(pos)
+                        if other is None or not np.array_equal(other.asarray(), keep):
+                            h.violation(f"persist:{mode}:other-format", f"{fmt}/{mode} history {hist} written with format={fmt!r} into a {dflt} pyramid: the {dflt} tile at the same position was {'removed' if other is None else 'altered'}",
+                                        input={"format": fmt, "default_format": dflt, "mode": mode, "history": hist})
                     all_und = bool(np.all(undefined_mask(bmode, last))) and mode not in ("U8", "I16", "I32")
                     exists = os.path.exists(path)
-                    tag = f"{fmt}/{mode} history {hist}"
+                    tag = f"{fmt}/{mode} history {hist}" + (f" (explicit format= in a {dflt} pyramid)" if explicit else "")
                     if exists == all_und:
-                        h.violation(f"persist:{mode}", f"{tag}: file {'exists' if exists else 'is absent'} although the last tile written was {'entirely' if all_und else 'not entirely'} undefined", input={"format": fmt, "mode": mode, "history": hist})
+                        h.violation(f"persist:{mode}", f"{tag}: file {'exists' if exists else 'is absent'} although the last tile written was {'entirely' if all_und else 'not entirely'} undefined", input={"format": fmt, "default_format": dflt, "mode": mode, "history": hist})
                         continue
                     with warnings.catch_warnings():
                         warnings.simplefilter("ignore")
-                        r_none = pio.read_image(pos, default="none")
-                        r_mask = pio.read_image(pos, default="masked", masked_mode=im_mode)
+                        r_none = pio.read_image(pos, default="none", **kw)
+                        r_mask = pio.read_image(pos, default="masked", masked_mode=im_mode, **kw)
                     if not exists:
                         if r_none is not None or r_mask is None or not np.all(undefined_mask(bmode, r_mask.asarray())) or r_mask.asarray().shape[:2] != (256, 256):
                             h.violation(f"readdefault:{mode}", f"{tag}: a missing tile reads back as {type(r_none).__name__} / a tile that is not all-undefined", input={"format": fmt, "mode": mode})
                         # the default tile must be fresh: mutate and ask again
                         r_mask.asarray()[...] = 1
-                        r_again = pio.read_image(Pos(2, 0, 0) if pos != Pos(2, 0, 0) else Pos(2, 1, 1), default="masked", masked_mode=im_mode)
+                        r_again = pio.read_image(Pos(2, 0, 0) if pos != Pos(2, 0, 0) else Pos(2, 1, 1), default="masked", masked_mode=im_mode, **kw)
                         if not np.all(undefined_mask(bmode, r_again.asarray())):
                             h.violation(f"readdefault:{mode}:stale", f"{tag}: after one all-undefined default tile was modified, another missing tile reads back with defined pixels", input={"format": fmt, "mode": mode})
                     elif fmt == "jpg":
